@@ -518,7 +518,9 @@ type Contract struct {
 	NoInline bool
 	Entry    bool
 	NoFrame  bool
+	NilRecv  bool // the method accepts a nil receiver
 	LoopInvs []*Clause // invariants of every loop of the function
+	Isolated []string            // struct types whose objects, when written by this function, may only reference objects of that type allocated during the current API call
 	NoReads  map[string][]string // struct type name -> fields the function must never read
 	PreOrder []int     // source order of requires (>=0: index into Requires) and lets (<0: -(index+1) into Lets)
 	Opaque    bool // havoc everything reachable (external default)
@@ -798,8 +800,12 @@ func parseSpecFile(src, prefix, file string, assumed bool) (*SpecFile, error) {
 					cur.NoReads[tn] = append(cur.NoReads[tn], f)
 				}
 			}
+		case "isolated":
+			cur.Isolated = append(cur.Isolated, strings.Fields(rest)...)
 		case "noinline":
 			cur.NoInline = true
+		case "nilrecv":
+			cur.NilRecv = true
 		case "entry":
 			cur.Entry = true
 		case "noframe":
